@@ -57,7 +57,7 @@ K_HISTORY = "depends-on-earlier-runs-in-the-same-process"
 # uninitialised memory
 # routines acting in a continuous Box: before run B a *different* training (same routine, other action bounds)
 # is executed in the same process, so state kept across calls (module-level caches) becomes visible
-HISTORY = {"ddpg", "td3", "td3_lap", "sac", "td7", "mrq", "pets", "mrq@ls0", "mrq@full", "td3@f64box", "sac@f64box", "mrq@prefilled"}
+HISTORY = {"ddpg", "td3", "td3_lap", "sac", "td7", "mrq", "pets", "mrq@ls0", "mrq@full", "td3@f64box", "sac@f64box", "mrq@prefilled", "ddpg@gs3"}
 
 P_A = dict(glob=101, shift=0.0)
 SHIFT = 1_000_003.217  # ~1e6 s, deliberately not a round number (a round shift vanishes under `int(t * 1000) % 100000`)
